@@ -21,7 +21,7 @@ RULE = (
     "evaluated), predicate P = train>=1 and cal>=1 and alpha*(1+1/cal)<1; (b) every alpha in {k/100} x n in [2, min+12] (n<=60): the real "
     "nonparametric model on real handler frames must produce finite intervals iff P, and its observed calibration size must equal n-train; "
     "(c) real client for nonparametric/gaussian/bootstrap, n in [min-1, min+12]/[min-1,min+3], multi-alpha, non-modelled reporting units "
-    "present, duplicate ids. non-trivial = the state sits within 12 units of a decision boundary (minimum, or P flips)"
+    "present, duplicate ids (exact copy / other counts / other percent). non-trivial = the state sits within 12 units of a decision boundary (minimum, or P flips)"
 )
 ASSUMPTIONS = [
     "P's training-row expression is the source line of ConformalElectionModel.get_unit_prediction_interval_bounds (harness error if it cannot be extracted)",
@@ -88,7 +88,8 @@ def cases(tier, seed):
             for extras in (0, 2):
                 out.append({"kind": "client", "pm": pm, "alphas": [0.7, 0.9], "n": n, "extras": extras, "seed": seed})
     for pm, n in (("nonparametric", 12), ("gaussian", 12), ("bootstrap", 14), ("nonparametric", 4)):
-        out.append({"kind": "client", "pm": pm, "alphas": [0.7], "n": n, "extras": 0, "dup": True, "seed": seed})
+        for dup in ("exact", "other_counts", "other_percent"):
+            out.append({"kind": "client", "pm": pm, "alphas": [0.7], "n": n, "extras": 0, "dup": dup, "seed": seed})
     return out
 
 
@@ -217,7 +218,13 @@ def evaluate(case):
         import pandas as pd
 
         rep_id = [u["id"] for u in units if u["role"] == "bg"][0]
-        feed = pd.concat([feed, feed[feed.geographic_unit_fips == rep_id]], ignore_index=True)
+        twin = feed[feed.geographic_unit_fips == rep_id].copy()
+        if case["dup"] == "other_counts":  # the same unit delivered twice with different (still plausible) counts
+            for c in ("results_dem", "results_gop", "results_turnout"):
+                twin[c] = twin[c] + 7
+        elif case["dup"] == "other_percent":
+            twin["percent_expected_vote"] = 100.5
+        feed = pd.concat([feed, twin], ignore_index=True)
     from elexmodel.client import ModelClient
     from elexmodel.models.BootstrapElectionModel import BootstrapElectionModel
     from elexmodel.models.GaussianElectionModel import GaussianElectionModel
@@ -259,4 +266,4 @@ def post(cases, results, tier, seed):
     return {"cov": {}}
 
 
-REQUIRED_COUNTERS = {"arith_states": 1000000, "P_true_finite": 100, "below_minimum": 10, "exactly_minimum": 5, "duplicate_ids": 3}
+REQUIRED_COUNTERS = {"arith_states": 1000000, "P_true_finite": 100, "below_minimum": 10, "exactly_minimum": 5, "duplicate_ids": 9}
